@@ -59,7 +59,7 @@ def main():
         finally:
             sh("git -C /repo worktree remove --force %s" % wt)
             sh("rm -rf %s/tmp/bin-trial/%s" % (ROOT, re.sub(r"[^A-Za-z0-9]", "_", wt)))
-    json.dump(res, open(os.path.join(ROOT, "seeded", "REGRESSION.json"), "w"), indent=1)
+    json.dump(res, open(os.path.join(ROOT, "seeded", os.environ.get("RESEED_OUT", "REGRESSION.json")), "w"), indent=1)
     n = sum(1 for v in res.values() if v.get("detected"))
     print("%d/%d seeds detected" % (n, len(res)))
 
